@@ -728,6 +728,44 @@ func ruleHandshakeDeadline(c *Checker, rule string) {
 				}
 			}
 		})
+		// a driver without results (the listener's handshake goroutine) hands the connection out by
+		// passing the wrapped connection on to another function of the package
+		if fn.Signature.Results().Len() == 0 {
+			allInstrs(fn, func(in ssa.Instruction) {
+				ci, ok := in.(ssa.CallInstruction)
+				if !ok || bad != "" {
+					return
+				}
+				sc := ci.Common().StaticCallee()
+				if sc == nil || w.pkgShort(sc) != targetMbox {
+					return
+				}
+				handsOut := false
+				for i, a := range ci.Common().Args {
+					if i == 0 && sc.Signature.Recv() != nil {
+						continue
+					}
+					if nn := namedOf(deref(a.Type())); nn != nil && nn.Obj().Name() == "NoiseConn" {
+						handsOut = true
+					}
+				}
+				if !handsOut {
+					return
+				}
+				for _, a := range arms {
+					if pathExists(a, in, func(x ssa.Instruction) bool {
+						for _, cl := range clears {
+							if x == cl {
+								return true
+							}
+						}
+						return false
+					}) {
+						bad = w.pos(instrPos(in))
+					}
+				}
+			})
+		}
 		c.decide(bad == "", rule, fnName(fn)+"|the handshake read deadline is cleared before the connection is handed out", fn.Pos(), "every success return after SetReadDeadline(now+timeout) passes SetReadDeadline(time.Time{})",
 			fnName(fn)+" can return successfully at "+bad+" with the handshake's read deadline still armed: every Read on the established connection fails with a timeout once it expires")
 	}
